@@ -256,7 +256,8 @@ Definition compress_file (w : world) (n : bytes) : bool * world :=
     if flt3 then (false, dropped w4) else
     let w5 := effect w4 (fun f => f) in
     let '(flt4, w6) := tick w5 in                                      (* finish *)
-    if flt4 then (false, dropped w6) else
+    (* the copy has gone into the encoder: when finish is not reached, its Drop completes the stream with the data *)
+    if flt4 then (false, effect w6 (fun f => set_gz f ino 1 data)) else
     let w7 := effect w6 (fun f => set_gz f ino 1 data) in
     p_remove w7 n
   end.
@@ -515,7 +516,11 @@ Definition mount_next (c : config) (w : world) (st : inner) (force : bool) : res
       | Ok infix =>
         match open_log_file c w1 (Some infix) with
         | (Ok (wr', path'), w2) =>
-          let w3 := w_drop w2 wr in                                        (* the old writer is dropped *)
+          (* what is still buffered is flushed into the file that is closed now, a failure is reported;
+             then the old writer is dropped (which tries once more, silently, if something is left) *)
+          let '(okf, w2a, wra) := w_flush w2 wr in
+          let w2b := if okf then w2a else report EFlush w2a in
+          let w3 := w_drop w2b wra in
           let roll' := reset_size_and_date w3 (rs_roll rs) path' in
           let '(rc, w4) := cleanup_or_queue c w3 (rs_bg rs) (rs_cleanup rs) (ns_filter ns1) (ns_writes_direct ns1) in
           let st' := Active (Some {| rs_naming := ns1; rs_roll := roll'; rs_cleanup := rs_cleanup rs; rs_bg := rs_bg rs |}) wr' path' in
@@ -591,7 +596,8 @@ Definition shutdown_state (s : flw) (w : world) : world * flw :=
     let o_rot' := match o_rot with
                   | Some rs => Some {| rs_naming := rs_naming rs; rs_roll := rs_roll rs; rs_cleanup := rs_cleanup rs; rs_bg := false |}
                   | None => None end in
-    let '(_, w1, wr') := w_flush w0 wr in (w1, with_inner s (Active o_rot' wr' path))
+    let '(okf, w1, wr') := w_flush w0 wr in
+    ((if okf then w1 else report EFlush w1), with_inner s (Active o_rot' wr' path))
   | Initial => (w, s)
   end.
 
